@@ -136,6 +136,16 @@ def run_case(case, workdir):
     else:
         vs, n_pops = O.check_coherence(r, scn)
         V += vs
+        if scn["sampler"] == "importance" and r.samples is not None and getattr(r.samples, "log_w", None) is not None:
+            # the unweighted set handed back by rejection sampling is one more sample set the library hands back: its cached
+            # log-densities must still belong to its rows
+            from ..rng import make_generator
+
+            rs = r.samples.rejection_sample(rng=make_generator(int(scn["seeds"]["rng"]) + 9, trace=None, name="user", backend=scn["xp"]))
+            if len(rs.x):
+                V += O._coherence_one("rejection-sampled set", r.model.target, None, rs.x, getattr(rs, "log_likelihood", None),
+                                      getattr(rs, "log_prior", None), None, O.run_bits(r, scn), where)
+                probes["rejection_sampled_sets_judged"] = 1
         if info.get("retry_loop_ran"):
             probes["initial_draw_retry_loop_ran"] = 1
         keys.append([scn["sampler"], scn["xp"], scn["dtype"], scn["_precond"], scn["checkpoint"]["mode"],
